@@ -3,6 +3,7 @@ import GraafVerif.Proof.PredMXComplete
 import GraafVerif.Proof.PredEL
 import GraafVerif.Proof.QueryALSeq
 import GraafVerif.Proof.PredFast
+import GraafVerif.Proof.PredFamilies
 /-!
 # C12 — structural predicates decide exactly their mathematical definitions
 
@@ -282,6 +283,31 @@ theorem al_buildRowsFast_eq (n : Nat) (arcs : List (Nat × Nat)) :
   Pred.AL.buildRowsFast_eq n arcs
 example : Pred.AL.isSemicompleteFast ⟨[[1], [0, 2], []]⟩ 2 = false := by decide
 example : Pred.AL.isTournamentFast ⟨[[1], [2], [0]]⟩ = true := by decide
+
+/-! ## Described families (`pred_minus_pair`): the oracle's executable definitions are sound, and the
+closed-form answers hold for EVERY order and EVERY position of the pair -/
+theorem defB_isComplete_iff (G : Digraph) : DefB.isComplete G = true ↔ Def.IsComplete G := DefB.isComplete_iff G
+theorem defB_isSemicomplete_iff (G : Digraph) : DefB.isSemicomplete G = true ↔ Def.IsSemicomplete G :=
+  DefB.isSemicomplete_iff G
+theorem defB_isTournament_iff (G : Digraph) : DefB.isTournament G = true ↔ Def.IsTournament G := DefB.isTournament_iff G
+/-- one non-adjacent pair of distinct vertices refutes semicomplete, tournament and complete -/
+theorem missing_pair_refutes {G : Digraph} {u v : Nat} (hu : u ∈ G.verts) (hv : v ∈ G.verts) (huv : u ≠ v)
+    (h1 : G.adj u v = false) (h2 : G.adj v u = false) :
+    ¬ Def.IsSemicomplete G ∧ ¬ Def.IsTournament G ∧ ¬ Def.IsComplete G := missing_pair hu hv huv h1 h2
+/-- complete(n) minus one pair: `false, false, false` -/
+theorem fam_completeMinusPair {n u v : Nat} (hu : u < n) (hv : v < n) (huv : u ≠ v) :
+    DefB.isSemicomplete (Fam.completeMinusPair n u v) = false ∧ DefB.isTournament (Fam.completeMinusPair n u v) = false ∧
+    DefB.isComplete (Fam.completeMinusPair n u v) = false := Fam.completeMinusPair_closed hu hv huv
+/-- rule tournament with one pair missing (size still n(n-1)/2): `false, false, false` -/
+theorem fam_tourMinusPair {n lo hi : Nat} (hlt : lo < hi) (hhi : hi < n) :
+    DefB.isSemicomplete (Fam.tourMinusPair n lo hi) = false ∧ DefB.isTournament (Fam.tourMinusPair n lo hi) = false ∧
+    DefB.isComplete (Fam.tourMinusPair n lo hi) = false := Fam.tourMinusPair_closed hlt hhi
+/-- complete(n) minus one arc: semicomplete, not complete -/
+theorem fam_completeMinusArc {n u v : Nat} (hu : u < n) (hv : v < n) (huv : u ≠ v) :
+    DefB.isSemicomplete (Fam.completeMinusArc n u v) = true ∧ DefB.isComplete (Fam.completeMinusArc n u v) = false :=
+  Fam.completeMinusArc_closed hu hv huv
+example : DefB.isSemicomplete (Fam.completeMinusPair 6 2 3) = false := by decide
+example : DefB.isSemicomplete (Fam.completeMinusArc 6 2 3) = true := by decide
 
 /-- **C12, full statement.** -/
 theorem statement : Statement :=
